@@ -20,11 +20,20 @@ def make_input(rng):
         # whatever sqlc makes of the collision must not depend on which type is declared first
         decls.append("CREATE TYPE event AS ENUM ('type_click', 'view');")
         decls.append("CREATE TYPE event_type AS ENUM ('click', 'scroll');")
+    coltypes = ["int", "text", "uuid", "timestamptz", "text[]", "json", "int NOT NULL", "text NOT NULL"]
+    if rng.random() < 0.4:
+        # a composite type (and the enums above) used by several tables with differing nullability: the Go type of a column
+        # must depend on that column alone, not on which table was declared (or generated) first
+        decls.append("CREATE TYPE addr AS (street text, city text);")
+        coltypes += ["addr", "addr NOT NULL", "addr", "addr NOT NULL"]
+    for d_ in list(decls):
+        if d_.startswith("CREATE TYPE e"):
+            coltypes += [d_.split()[2], d_.split()[2] + " NOT NULL"]
     tables = {}
     for t in names:
         cols = ["id"] + rng.sample(["name", "bio", "n", "tags", "created_at"], rng.randint(1, 3))
         tables[t] = cols
-        decls.append("CREATE TABLE %s (%s);" % (t, ", ".join("%s %s" % (c, rng.choice(["int", "text", "uuid", "timestamptz", "text[]", "json"])) for c in cols)))
+        decls.append("CREATE TABLE %s (%s);" % (t, ", ".join("%s %s" % (c, rng.choice(coltypes)) for c in cols)))
     queries = []
     for i, t in enumerate(rng.sample(names, len(names))):
         cols = tables[t]
